@@ -43,6 +43,17 @@ def check(ctx, out, sg, dg, reply, label, opts=None):
     dms = vcase.declared_msg_shapes(sg)
     a = vcase.multiset(code[2], dms, with_detail=False)
     b = vcase.multiset(rres, dms, with_detail=False)
+    # the open C01 finding (sh:closed never reports (v rdf:type rdfs:Resource)) is C01's subject, printed by C01's check: it is not a
+    # statement about composition; such a reference-only result is set aside here (nothing else is)
+    RES, TYP = "I:http%3a;//www.w3.org/2000/01/rdf-schema#Resource", "I:http%3a;//www.w3.org/1999/02/22-rdf-syntax-ns#type"
+    c01_known = [k for k in (b - a).elements() if k[1] == RES and k[2] == TYP and k[3].endswith("#ClosedConstraintComponent")]
+    if c01_known:
+        out.count("set-aside:C01:closed-exempts-rdf:type-rdfs:Resource", len(c01_known))
+        for k in c01_known:
+            b[k] -= 1
+        b += type(b)()   # drop zero counts
+        if not code[2] and rconf is False and not list(b.elements()):
+            rconf = True
     if a != b or code[1] != rconf:
         oc, orf = list((a - b).elements()), list((b - a).elements())
         comp = (oc or orf or [("", "", "", "#verdict")])[0][3].rsplit("#", 1)[-1].replace("ConstraintComponent", "")
